@@ -322,8 +322,11 @@ PROPS = {
                        "is refuted. In 40% of the cases (always in the scripted case 0) the proxy plays such a server on top of the built-in one: a shadow monitor learns "
                        "every transaction id, the driver snapshots the database after each transaction, and a monitor_cond_since request whose id and current contents have "
                        "snapshots is answered [true, id, difference] - or, 25% of the time, [false, id, contents] as a cluster member with a shorter history would. "
-                       "Partial: leader-only mode is not exercised (the built-in server has no _Server database here); cut positions are sampled, not enumerated; the timing "
-                       "of the reconnect loop is the implementation's."),
+                       "Leader-only mode: Cli/Leader.v models isEndpointLeader and the endpoint loop; the endpoint chosen never reports 'clustered, not the leader' for the "
+                       "client's database in whatever order the server lists its databases, none is chosen iff all are refused, an endpoint that lost leadership is not chosen "
+                       "again while it says so; tied to the code by real servers that also serve _Server (shuffled Database rows: attach with 1..3 endpoints of every role, "
+                       "leadership moving to another endpoint, leadership lost and regained). "
+                       "Partial: cut positions are sampled, not enumerated; the timing of the reconnect loop and of the leadership watch is the implementation's."),
         "level_note": ("Trusted: Coq kernel + vm_compute, std++; Go harness incl. the proxy (it forwards whole JSON messages) and its polling for convergence (8 s deadline). "
                        "Notifications arriving while a monitor is being restarted are C01's deferral theorem."),
         "rule": ("per case 1..3 monitors (any method) on disjoint groups of 3 tables (+ an unmonitored or monitored marker table), 3 (thorough 5) cuts of 5 kinds, 1..3 foreign "
@@ -331,7 +334,7 @@ PROPS = {
                  "History mode: one monitor_cond_since monitor, a transaction while connected before most cuts, the server unreachable (connections refused) while others "
                  "commit in 70% of the idle cuts, a quiet second cut after half of the rounds; case 0 runs the fixed sequence notified / unreachable while a set and a map "
                  "change / back / quiet second cut. Non-trivial: >= 2 monitors, or history mode with a found=true answer."),
-        "tags": {1: "cache after resynchronisation vs the model (monitored part of the database)"},
+        "tags": {1: "cache after resynchronisation vs the model (monitored part of the database)", 2: "endpoint a leader-only client attached to vs the model's choice"},
         "assumptions": ["monitors of one client watch disjoint tables", "outside history mode the server answers a re-established monitor with the complete contents (the built-in server never knows a last transaction id); in history mode the proxy's answers are those of a server as ovsdb-server(7) describes monitor_cond_since"],
     },
     "C18": {
